@@ -29,6 +29,9 @@ type Plan struct {
 	AfterCommit func(k int)
 	// BeforeCommit is called before commit k is applied (it may park a scheduler).
 	BeforeCommit func(k int)
+	// BeforeUpdate is called when a writer opens its batch through the Update/Write helpers, before the
+	// writer's callback has done anything (a preemption point at the very start of an operation).
+	BeforeUpdate func()
 	// BeforeRead is called before every read-side operation (Get, Has, NewIterator, NewSnapshot):
 	// a preemption point at which a harness may let another party of the simulation run.
 	BeforeRead func(kind string)
@@ -193,6 +196,9 @@ func (d *DB) Update(fn func(db.IndexedBatch) error) error {
 	if d.Dead {
 		return ErrDead
 	}
+	if d.Plan.BeforeUpdate != nil && !d.Paused {
+		d.Plan.BeforeUpdate()
+	}
 	b := d.NewIndexedBatch()
 	if err := fn(b); err != nil {
 		_ = b.Close()
@@ -204,6 +210,9 @@ func (d *DB) Update(fn func(db.IndexedBatch) error) error {
 func (d *DB) Write(fn func(db.Batch) error) error {
 	if d.Dead {
 		return ErrDead
+	}
+	if d.Plan.BeforeUpdate != nil && !d.Paused {
+		d.Plan.BeforeUpdate()
 	}
 	b := d.NewBatch()
 	if err := fn(b); err != nil {
